@@ -75,14 +75,19 @@ OP = st.one_of(
 ).map(list)
 
 CASE = st.builds(
-    lambda a, p, init, flushes, rows, ops: {
+    lambda a, p, init, flushes, rows, ops, adj: {
         'activation': a, 'prefetch': p, 'reorg_limit': 4, 'init': init,
-        'flush': [flushes[i % len(flushes)] for i in range(len(init))], 'rows': rows, 'ops': ops},
+        'flush': [flushes[i % len(flushes)] for i in range(len(init))], 'rows': rows, 'ops': ops,
+        'adj': adj},
     st.integers(0, 9), st.integers(1, 8),
     st.lists(BLOCK, min_size=6, max_size=20),
     st.lists(st.sampled_from([0, 1, 2, 1, 2]), min_size=1, max_size=20),
     st.integers(2, 8),
-    st.lists(OP, min_size=1, max_size=8))
+    st.lists(OP, min_size=1, max_size=8),
+    # adjacent-prefix stratum: every k-th block also pays the ground scripts whose script hashes sit
+    # in neighbouring 2-byte key prefixes (1000 1001 1002, fffe ffff, 0000 0001, 00ff 0100), the
+    # unit the compaction cursor walks
+    st.sampled_from([0, 0, 1, 2, 3]))
 
 
 class Killed(BaseException):
@@ -149,7 +154,10 @@ class Machine:
     def __init__(self, scratch, case):
         self.case = case
         self.world = W.World(activation=case['activation'])
-        self.world.extend(case['init'])
+        self.adj = case.get('adj') or 0
+        self.adj_scripts = W.adjacent_scripts() if self.adj else []
+        W.EXTRA_SCRIPTS = list(self.adj_scripts)
+        self.world.extend([self.with_adj(d, i) for i, d in enumerate(case['init'])])
         self.coin = make_coin(case['activation'], case['prefetch'])
         self.limit = case['reorg_limit']
         self.db_dir = fresh_dir(scratch)
@@ -171,6 +179,13 @@ class Machine:
 
     def restore(self):
         history_mod.History.__init__ = self._real_init
+        W.EXTRA_SCRIPTS = []
+
+    def with_adj(self, desc, i):
+        '''Every adj-th block gets one extra (generation-like) transaction per ground script.'''
+        if not self.adj or i % self.adj:
+            return desc
+        return dict(desc, pad=len(self.adj_scripts), pad_outs=[[sc] for sc in self.adj_scripts])
 
     # ---- helpers ----------------------------------------------------------------------------
     def model(self):
@@ -185,7 +200,7 @@ class Machine:
 
     def check_histories(self, history, where):
         model = self.model()
-        for script in W.SCRIPTS + W.ABSENT_SCRIPTS:
+        for script in W.SCRIPTS + W.ABSENT_SCRIPTS + W.EXTRA_SCRIPTS:
             hashX = W.hashX_of(script)
             got = list(history.get_txnums(hashX, None))
             want = model.history.get(hashX, [])
@@ -396,7 +411,7 @@ class Machine:
                     await self.run_server()
                     continue
                 if kind == 'extend':
-                    self.world.extend(op[1])
+                    self.world.extend([self.with_adj(d, 0) for d in op[1]])
                     await self.run_server()
                 elif kind == 'fork':
                     h = self.world.height
@@ -404,7 +419,8 @@ class Machine:
                     descs = list(op[2])
                     while len(descs) < d + 1:
                         descs.append(descs[len(descs) % len(descs)])
-                    descs = [dict(x, nonce=x['nonce'] + 31 + self.world.uid) for x in descs]
+                    descs = [self.with_adj(dict(x, nonce=x['nonce'] + 31 + self.world.uid), 0)
+                             for x in descs]
                     world = self.world
 
                     async def action(node):
